@@ -13,7 +13,7 @@ for id in $ids; do
   props="$prop $(cat seeded/$id/also 2>/dev/null)"
   for p in $props; do
     if [ -n "$(git -C /repo status --porcelain)" ]; then echo "/repo dirty"; exit 2; fi
-    git -C /repo apply seeded/$id/patch.diff || { echo -e "$id\t$p\tPATCH-FAILS" >> $out; continue; }
+    git -C /repo apply "$PWD/seeded/$id/patch.diff" || { echo -e "$id\t$p\tPATCH-FAILS" >> $out; continue; }
     log=$(mktemp)
     timeout 1500 ./simcheck run $p --tier quick > $log 2>&1; rc=$?
     git -C /repo checkout -- .
